@@ -60,6 +60,35 @@ Record Inv (s : flst) (done : list word) (u : word) : Prop := mkInv {
   i_syms : forall q a r, wdelta (fl_trans s) q a = Some r -> exists w, In w done /\ In a w;
   i_live : forall q, key q (fl_trans s) -> q <> [] -> exists v, wacc s q v = true }.
 
+Lemma wacc_cons s y b v :
+  wacc s y (b :: v) = match wdelta (fl_trans s) y b with Some t => wacc s t v | None => false end.
+Proof.
+  unfold wacc. simpl. destruct (wdelta (fl_trans s) y b); [reflexivity|]. rewrite wrun_None. reflexivity.
+Qed.
+
+(* the path states are reached from the root by their own name *)
+Lemma path_run s done u : Inv s done u -> forall x, pre x u -> wrun (fl_trans s) (Some []) x = Some x.
+Proof.
+  intros HI x. induction x as [|b x IH] using rev_ind; intro Hp; [reflexivity|].
+  rewrite wrun_app, (IH (pre_snoc_l _ _ _ Hp)). simpl. apply (i_link _ _ _ HI). exact Hp.
+Qed.
+
+Lemma no_edge_to_root s done u q a : Inv s done u -> wdelta (fl_trans s) q a <> Some [].
+Proof.
+  intros HI Hd. pose proof (i_in _ _ _ HI _ _ _ Hd (pre_nil u)) as E. destruct q; discriminate.
+Qed.
+
+(* ---------- the second half of the invariant (minimality): the states off the path are exactly the registered
+   ones, no two registered states have the same signature, registered states are pairwise distinguishable, and
+   every state is reached from the root ---------- *)
+Definition registered (s : flst) (q : word) : Prop := exists sg, In (sg, q) (fl_sigs s).
+
+Record InvM (s : flst) (u : word) : Prop := mkInvM {
+  m_reg : forall q, key q (fl_trans s) -> ~ pre q u -> registered s q;
+  m_uniq : forall sg q q', In (sg, q) (fl_sigs s) -> In (sg, q') (fl_sigs s) -> q = q';
+  m_dist : forall q q', registered s q -> registered s q' -> q <> q' -> exists w, wacc s q w <> wacc s q' w;
+  m_acc : forall q, key q (fl_trans s) -> exists x, wrun (fl_trans s) (Some []) x = Some q }.
+
 (* ---------- compress: one round ---------- *)
 Section CompressOne.
   Variables (s : flst) (done : list word) (x : word) (a : nat).
@@ -90,6 +119,77 @@ Section CompressOne.
       + inversion Hin; subst. split; [apply p_not_pre_x|]. split; [exact Hsg|].
         unfold bkey. unfold p. rewrite (i_back0 x a (pre_refl _)). discriminate.
     - intros y b Hy. apply i_back0. eapply pre_trans; [exact Hy|apply x_pre_p].
+  Qed.
+
+  (* a registered state with another signature is told apart from p: by finality, or by a symbol on which the
+     rows differ (both targets registered and different, or one target missing and the other one live) *)
+  Lemma dist_by_sig sg sg' q' : InvM s p -> compute_signature s p = Ok sg -> In (sg', q') (fl_sigs s) -> sg' <> sg ->
+    exists w, wacc s p w <> wacc s q' w.
+  Proof.
+    intros HM Hsg Hin Hne. destruct (i_sigs _ _ _ HI _ _ Hin) as (Hq1 & Hq2 & _).
+    unfold compute_signature in Hsg, Hq2.
+    destruct (wassoc p (fl_trans s)) as [rp|] eqn:Ep; [|discriminate].
+    destruct (wassoc q' (fl_trans s)) as [rq|] eqn:Eq; [|discriminate].
+    inversion Hsg; subst sg. inversion Hq2; subst sg'. clear Hsg Hq2.
+    destruct (Bool.eqb (wmem p (fl_fin s)) (wmem q' (fl_fin s))) eqn:Ef.
+    - apply Bool.eqb_prop in Ef.
+      assert (Hrows : sort_row rp <> sort_row rq) by (intro E; apply Hne; rewrite Ef, E; reflexivity).
+      destruct (rows_differ rp rq (i_rows _ _ _ HI _ _ Ep) (i_rows _ _ _ HI _ _ Eq) Hrows) as [b Hb].
+      assert (Hdp : wdelta (fl_trans s) p b = assoc b rp) by (unfold wdelta; rewrite Ep; reflexivity).
+      assert (Hdq : wdelta (fl_trans s) q' b = assoc b rq) by (unfold wdelta; rewrite Eq; reflexivity).
+      assert (Hregp : forall t, wdelta (fl_trans s) p b = Some t -> registered s t /\ t <> []).
+      { intros t Hd. split.
+        - apply (m_reg _ _ HM); [apply (i_closed _ _ _ HI _ _ _ Hd)|]. intro Hp.
+          pose proof (i_in _ _ _ HI _ _ _ Hd Hp) as E. subst t. apply pre_length in Hp. rewrite app_length in Hp. simpl in Hp. lia.
+        - intro E. subst t. exact (no_edge_to_root _ _ _ _ _ HI Hd). }
+      assert (Hregq : forall t, wdelta (fl_trans s) q' b = Some t -> registered s t /\ t <> []).
+      { intros t Hd. split.
+        - apply (m_reg _ _ HM); [apply (i_closed _ _ _ HI _ _ _ Hd)|]. intro Hp.
+          pose proof (i_in _ _ _ HI _ _ _ Hd Hp) as E. subst t. apply Hq1. eapply pre_snoc_l. exact Hp.
+        - intro E. subst t. exact (no_edge_to_root _ _ _ _ _ HI Hd). }
+      rewrite <- Hdp, <- Hdq in Hb.
+      destruct (wdelta (fl_trans s) p b) as [t|] eqn:Edp; destruct (wdelta (fl_trans s) q' b) as [t'|] eqn:Edq.
+      + destruct (Hregp t eq_refl) as [Hrt _]. destruct (Hregq t' eq_refl) as [Hrt' _].
+        destruct (m_dist _ _ HM t t' Hrt Hrt') as [v Hv]; [congruence|].
+        exists (b :: v). rewrite !wacc_cons, Edp, Edq. exact Hv.
+      + destruct (Hregp t eq_refl) as [_ Hn]. destruct (i_live _ _ _ HI t (i_closed _ _ _ HI _ _ _ Edp) Hn) as [v Hv].
+        exists (b :: v). rewrite !wacc_cons, Edp, Edq, Hv. discriminate.
+      + destruct (Hregq t' eq_refl) as [_ Hn]. destruct (i_live _ _ _ HI t' (i_closed _ _ _ HI _ _ _ Edq) Hn) as [v Hv].
+        exists (b :: v). rewrite !wacc_cons, Edp, Edq, Hv. discriminate.
+      + contradiction.
+    - exists []. unfold wacc. simpl. intro E. rewrite E in Ef. rewrite Bool.eqb_reflx in Ef. discriminate.
+  Qed.
+
+  Lemma compress_register_M sg : InvM s p -> compute_signature s p = Ok sg -> sassoc sg (fl_sigs s) = None ->
+    InvM (mkfl (fl_trans s) (fl_back s) (fl_fin s) (fl_sigs s ++ [(sg, p)])) x.
+  Proof.
+    intros HM Hsg Hnone. pose proof (sassoc_None _ _ Hnone) as Hfresh.
+    set (s1 := mkfl (fl_trans s) (fl_back s) (fl_fin s) (fl_sigs s ++ [(sg, p)])).
+    assert (Hreg : forall y, registered s1 y <-> registered s y \/ y = p).
+    { intro y. unfold registered. simpl. split.
+      - intros [sg' Hin]. apply in_app_or in Hin. destruct Hin as [Hin|[Hin|[]]]; [left; eauto|right; congruence].
+      - intros [[sg' Hin]| ->]; [exists sg'; apply in_or_app; left; exact Hin|exists sg; apply in_or_app; right; left; reflexivity]. }
+    assert (Hpn : ~ registered s p).
+    { intros [sg' Hin]. destruct (i_sigs _ _ _ HI _ _ Hin) as (H1 & _). apply H1. apply pre_refl. }
+    assert (Hd : forall y, registered s y -> exists w, wacc s p w <> wacc s y w).
+    { intros y [sg' Hin]. apply (dist_by_sig sg sg' y HM Hsg Hin). intros ->. exact (Hfresh y Hin). }
+    constructor; simpl.
+    - intros y Hk Hn. apply Hreg. destruct (weq_dec y p) as [->|Hyp]; [right; reflexivity|left].
+      apply (m_reg _ _ HM y Hk). intro Hp. destruct (pre_snoc_cases _ _ _ Hp) as [H|H]; [contradiction|]. exact (Hyp H).
+    - intros sg0 y y' H1 H2. apply in_app_or in H1. apply in_app_or in H2.
+      destruct H1 as [H1|[H1|[]]]; destruct H2 as [H2|[H2|[]]].
+      + exact (m_uniq _ _ HM _ _ _ H1 H2).
+      + inversion H2; subst. exfalso. exact (Hfresh _ H1).
+      + inversion H1; subst. exfalso. exact (Hfresh _ H2).
+      + congruence.
+    - intros y y' Hy Hy' Hne. apply Hreg in Hy. apply Hreg in Hy'.
+      change (exists w, wacc s y w <> wacc s y' w).
+      destruct Hy as [Hy| ->]; destruct Hy' as [Hy'| ->].
+      + exact (m_dist _ _ HM y y' Hy Hy' Hne).
+      + destruct (Hd y Hy) as [w Hw]. exists w. congruence.
+      + exact (Hd y' Hy').
+      + contradiction.
+    - exact (m_acc _ _ HM).
   Qed.
 
   (* found an identical registered state q *)
@@ -229,28 +329,71 @@ Section CompressOne.
     - intros y Hy Hyn. apply tr'_key in Hy. destruct Hy as [Hy Hk]. destruct (i_live _ _ _ HI y Hk Hyn) as [v Hv].
       exists v. rewrite <- Hv. rewrite <- (acc'_sub y v). rewrite (sub_id y Hy). reflexivity.
   Qed.
+
+  Lemma compress_merge_M : InvM s p -> InvM s' x.
+  Proof.
+    intro HM. destruct q_facts as (Hq1 & Hqp & Hqx & Hqk & Hqb & Hqf & Hqd).
+    assert (Hregp : forall y, registered s y -> y <> p).
+    { intros y [sg' Hin] ->. destruct (i_sigs _ _ _ HI _ _ Hin) as (H1 & _). apply H1. apply pre_refl. }
+    constructor; simpl.
+    - intros y Hk Hn. apply tr'_key in Hk. destruct Hk as [Hyp Hk].
+      change (registered s y). apply (m_reg _ _ HM y Hk). intro Hp.
+      destruct (pre_snoc_cases _ _ _ Hp) as [H|H]; [contradiction|]. exact (Hyp H).
+    - exact (m_uniq _ _ HM).
+    - intros y y' Hy Hy' Hne. change (registered s y) in Hy. change (registered s y') in Hy'.
+      destruct (m_dist _ _ HM y y' Hy Hy' Hne) as [w Hw]. exists w.
+      rewrite <- (sub_id y (Hregp y Hy)), <- (sub_id y' (Hregp y' Hy')), !acc'_sub. exact Hw.
+    - intros y Hk. apply tr'_key in Hk. destruct Hk as [Hyp Hk]. destruct (m_acc _ _ HM y Hk) as [w Hw].
+      exists w. pose proof (run'_sub w (Some [])) as Hr. simpl in Hr. rewrite Hw in Hr. simpl in Hr.
+      rewrite (sub_id y Hyp) in Hr. rewrite sub_id in Hr; [exact Hr|]. intro E. unfold p in E. destruct x; discriminate.
+  Qed.
 End CompressOne.
 
-Lemma compress_one_ok s done x a : Inv s done (x ++ [a]) ->
-  exists s', compress_one s (x ++ [a]) = Ok s' /\ Inv s' done x.
+(* which of the two branches compress_one takes, with the resulting tables *)
+Lemma compress_one_cases s done x a : Inv s done (x ++ [a]) ->
+  let p := x ++ [a] in
+  (exists sg, compute_signature s p = Ok sg /\ sassoc sg (fl_sigs s) = None /\
+     compress_one s p = Ok (mkfl (fl_trans s) (fl_back s) (fl_fin s) (fl_sigs s ++ [(sg, p)]))) \/
+  (exists sg q rowx lq, compute_signature s p = Ok sg /\ In (sg, q) (fl_sigs s) /\
+     wassoc x (fl_trans s) = Some rowx /\ wassoc q (fl_back s) = Some lq /\
+     compress_one s p = Ok (mkfl (wset x (redirect p q rowx) (wdel p (fl_trans s))) (wset q (wadd x lq) (fl_back s))
+                                 (wdiscard p (fl_fin s)) (fl_sigs s))).
 Proof.
-  intro HI. set (p := x ++ [a]).
+  intros HI p.
   pose proof (i_path _ _ _ HI p (pre_refl _)) as Hkp.
   destruct (wassoc p (fl_trans s)) as [rowp|] eqn:Ep; [|exfalso; apply Hkp; exact Ep].
-  unfold compress_one. fold p.
+  unfold compress_one.
   assert (Hsg : compute_signature s p = Ok (wmem p (fl_fin s), sort_row rowp))
     by (unfold compute_signature; rewrite Ep; reflexivity).
   rewrite Hsg. simpl. destruct (sassoc _ (fl_sigs s)) as [q|] eqn:Es.
-  - apply sassoc_In in Es.
-    destruct (q_facts s done x a HI _ q Hsg Es) as (Hq1 & Hqp & Hqx & Hqk & Hqb & _).
-    rewrite Ep. unfold p at 1. rewrite (i_back _ _ _ HI x a (pre_refl _)). fold p. simpl.
+  - right. pose proof (sassoc_In _ _ _ Es) as Hin.
+    destruct (q_facts s done x a HI _ q Hsg Hin) as (Hq1 & Hqp & Hqx & Hqk & Hqb & _).
+    assert (Eb : wassoc p (fl_back s) = Some [x]) by (apply (i_back _ _ _ HI x a (pre_refl _))).
+    rewrite Ep, Eb. simpl.
     rewrite wassoc_wdel. weq x p; [exfalso; exact (x_neq_p x a E)|].
     pose proof (i_path _ _ _ HI x (pre_app x [a])) as Hkx.
     destruct (wassoc x (fl_trans s)) as [rowx|] eqn:Ex; [|exfalso; apply Hkx; exact Ex].
     destruct (wassoc q (fl_back s)) as [lq|] eqn:Eq; [|exfalso; apply Hqb; exact Eq].
-    simpl. eexists. split; [reflexivity|].
-    exact (compress_merge s done x a HI _ q Hsg Es rowx lq Ex).
-  - eexists. split; [reflexivity|]. apply (compress_register s done x a HI). exact Hsg.
+    simpl. exists (wmem p (fl_fin s), sort_row rowp), q, rowx, lq. repeat split; try assumption; reflexivity.
+  - left. exists (wmem p (fl_fin s), sort_row rowp). repeat split; try assumption; reflexivity.
+Qed.
+
+Lemma compress_one_ok s done x a : Inv s done (x ++ [a]) ->
+  exists s', compress_one s (x ++ [a]) = Ok s' /\ Inv s' done x.
+Proof.
+  intro HI. destruct (compress_one_cases s done x a HI) as [(sg & Hsg & Hn & E)|(sg & q & rowx & lq & Hsg & Hin & Ex & Eq & E)].
+  - eexists. split; [exact E|]. apply (compress_register s done x a HI). exact Hsg.
+  - eexists. split; [exact E|]. exact (compress_merge s done x a HI _ q Hsg Hin rowx lq Ex).
+Qed.
+
+Lemma compress_one_ok_M s done x a : Inv s done (x ++ [a]) -> InvM s (x ++ [a]) ->
+  exists s', compress_one s (x ++ [a]) = Ok s' /\ Inv s' done x /\ InvM s' x.
+Proof.
+  intros HI HM. destruct (compress_one_cases s done x a HI) as [(sg & Hsg & Hn & E)|(sg & q & rowx & lq & Hsg & Hin & Ex & Eq & E)].
+  - eexists. split; [exact E|]. split; [apply (compress_register s done x a HI); exact Hsg|].
+    exact (compress_register_M s done x a HI sg HM Hsg Hn).
+  - eexists. split; [exact E|]. split; [exact (compress_merge s done x a HI _ q Hsg Hin rowx lq Ex)|].
+    exact (compress_merge_M s done x a HI _ q Hsg Hin rowx lq Ex HM).
 Qed.
 
 Lemma firstn_S_snoc (w : word) j : j < length w -> firstn (S j) w = firstn j w ++ [nth j w 0].
@@ -282,4 +425,27 @@ Proof.
   - lia.
   - exists s'. split; [exact E|]. replace (length w - (length w - lcp_len w next)) with (lcp_len w next) in HI' by lia.
     exact HI'.
+Qed.
+
+Lemma compress_steps_ok_M done w : forall k i s, Inv s done (firstn i w) -> InvM s (firstn i w) -> i <= length w -> k <= i ->
+  exists s', compress_steps s w i k = Ok s' /\ Inv s' done (firstn (i - k) w) /\ InvM s' (firstn (i - k) w).
+Proof.
+  induction k as [|k IH]; intros i s HI HM Hi Hk; simpl.
+  - exists s. split; [reflexivity|]. rewrite Nat.sub_0_r. split; assumption.
+  - destruct i as [|j]; [lia|]. rewrite (firstn_S_snoc w j) in * by lia.
+    destruct (compress_one_ok_M s done _ _ HI HM) as [s1 [E1 [HI1 HM1]]]. rewrite E1. simpl.
+    destruct (IH j s1 HI1 HM1) as [s2 [E2 H2]]; [lia|lia|]. exists s2. split; [exact E2|exact H2].
+Qed.
+
+Lemma compress_ok_M s done w next : Inv s done w -> InvM s w ->
+  exists s', compress s w next = Ok s' /\ Inv s' done (firstn (lcp_len w next) w) /\ InvM s' (firstn (lcp_len w next) w).
+Proof.
+  intros HI HM. unfold compress. pose proof (lcp_le w next) as Hl.
+  destruct (compress_steps_ok_M done w (length w - lcp_len w next) (length w) s) as [s' [E H']].
+  - rewrite firstn_all. exact HI.
+  - rewrite firstn_all. exact HM.
+  - lia.
+  - lia.
+  - exists s'. split; [exact E|]. replace (length w - (length w - lcp_len w next)) with (lcp_len w next) in H' by lia.
+    exact H'.
 Qed.
